@@ -223,6 +223,10 @@ def encoding_groups(ctx):
                     fallback_unwind=6,
                     clause_note='contracts/C11_encoding.h: length 4*ceil(size/3); characters of group g_blk equal RFC 4648 (spec/C11_base64.h)',
                     replay=RP('base64_encode')))
+    gs.append(Group(name='Encoding.base64_encode[bounded]', harness=H, entry='h_base64_encode', function='base64_encode',
+                    enforce='base64_encode', kind='bounded', bound='size <= 12 (loop unwound, --unwind 6)', defines=D + ['VERIF_SMALL'],
+                    cbmc_flags=['--unwind', '6', '--unwinding-assertions'], timeout=300, stage1=30, replay=RP('base64_encode'),
+                    clause_note='the same contract on the loop-unwound code: independent of the loop invariant'))
     gs.append(Group(name='Encoding.base64_decode.block', harness=H, entry='h_base64_decode_block', function='base64_decode (loop body: one block)',
                     enforce='base64_decode_block', defines=D, timeout=300, stage1=20,
                     clause_note='contracts/C11_encoding.h: no exception <=> the block is acceptable (B64_BLOCK_OK); appended octets equal RFC 4648',
@@ -232,12 +236,19 @@ def encoding_groups(ctx):
                     fallback_unwind=5,
                     clause_note='contracts/C11_encoding.h: no exception <=> size%4==0 and every block acceptable; decoded octets equal RFC 4648',
                     replay=RP('base64_decode')))
+    gs.append(Group(name='Encoding.base64_decode[bounded]', harness=H, entry='h_base64_decode', function='base64_decode',
+                    enforce='base64_decode', kind='bounded', bound='size <= 12 (loop unwound, --unwind 5)', defines=D + ['VERIF_SMALL'],
+                    cbmc_flags=['--unwind', '5', '--unwinding-assertions'], timeout=300, stage1=30, replay=RP('base64_decode'),
+                    clause_note='the same contract on the loop-unwound code: independent of the loop invariant'))
     gs.append(Group(name='Encoding.base64.roundtrip', harness=H, entry='l_b64_roundtrip', function='base64_decode(base64_encode(x))',
                     replace=['base64_encode', 'base64_decode'], kind='lemma', defines=D, min_post=5, timeout=600, stage1=20,
                     clause_note='over the two contracts: decode(encode(x)) raises nothing at block k, has length |x| and octets 3k..3k+2 equal x'))
     gs.append(Group(name='Encoding.rot13', harness=H, entry='h_rot13', function='rot13', enforce='rot13', loops=True, kind='loop-contract',
                     defines=D, fallback_unwind=6, replay=RP('rot13'),
                     clause_note='contracts/C11_encoding.h: same length, byte g_k == ROT13_SPEC(input byte g_k)'))
+    gs.append(Group(name='Encoding.rot13[bounded]', harness=H, entry='h_rot13', function='rot13', enforce='rot13', kind='bounded',
+                    bound='size <= 12 (loop unwound, --unwind 14)', defines=D + ['VERIF_SMALL'], cbmc_flags=['--unwind', '14', '--unwinding-assertions'],
+                    replay=RP('rot13'), clause_note='the same contract on the loop-unwound code: independent of the loop invariant'))
     gs.append(Group(name='Encoding.rot13.spec-involution', harness=H, entry='l_rot13_spec', function='rot13 (spec macro)', kind='lemma',
                     defines=D, min_post=3,
                     clause_note='ROT13_SPEC(ROT13_SPEC(c)) == c; non-letters unchanged; letters map to a different letter of the same case'))
@@ -255,7 +266,7 @@ def esc_loop(ix, ok):
 __CPROVER_assigns(%(ix)s, g_sc, g_pos, g_pos1, g_olen, g_o0, g_o1, g_o2, g_o3, ret->size, __CPROVER_object_whole(ret->data))
 __CPROVER_loop_invariant(%(ix)s <= s->size && ret->size <= 4 * %(ix)s)
 __CPROVER_loop_invariant((g_k == 0 && %(ix)s != 0) ==> g_pos == 0)
-__CPROVER_loop_invariant(g_k < %(ix)s ==> (g_olen >= 1 && g_olen <= 4 && g_pos + g_olen <= ret->size && g_pos + g_olen == (g_k + 1 < %(ix)s ? g_pos1 : ret->size)))
+__CPROVER_loop_invariant(g_k < %(ix)s ==> (g_olen >= 1 && g_olen <= 4 && g_pos <= ret->size && g_olen <= ret->size - g_pos && g_pos + g_olen == (g_k + 1 < %(ix)s ? g_pos1 : ret->size)))
 __CPROVER_loop_invariant(g_k < %(ix)s ==> (ESC_AT(0) == g_o0 && (g_olen < 2 || ESC_AT(1) == g_o1) && (g_olen < 3 || ESC_AT(2) == g_o2) && (g_olen < 4 || ESC_AT(3) == g_o3)))
 __CPROVER_loop_invariant(g_k < %(ix)s ==> %(ok)s(g_o0, g_o1, g_o2, g_o3, g_olen, g_kch, g_flag))
 __CPROVER_decreases(s->size - %(ix)s)
@@ -316,9 +327,49 @@ def escape_groups(ctx):
                         enforce=fn + '_step', timeout=300, stage1=20, replay=RP(fn),
                         clause_note='contracts/C11_escape.h: the 1..4 octets appended for the input octet satisfy %s (spec/C11_escape.h)' % ok))
         gs.append(Group(name='Strings.%s' % fn, harness=H, entry='h_' + fn, function=fn, enforce=fn, replace=[fn + '_step'], loops=True,
-                        kind='loop-contract', timeout=600, stage1=20, fallback_unwind=8, replay=RP(fn),
+                        kind='loop-contract', timeout=600, stage1=20, fallback_unwind=4, replay=RP(fn),
                         clause_note='contracts/C11_escape.h: the code of input octet g_k lies at g_pos, satisfies %s, and the codes tile the result in input order' % ok))
     return gs
+
+
+# ---------------------------------------------------------------------------------------------------------------------
+# src/Network.cc: render_netloc / parse_netloc  (BOUNDED check; the functions consist of std::string / to_string / stod calls)
+# ---------------------------------------------------------------------------------------------------------------------
+def netloc_units(ctx, src):
+    u = Unit(ctx, 'netloc')
+    u.function(src, NET, r'string render_netloc\(const string& addr, int port\)',
+               new_header='void render_netloc(vstr* ret, const vstr* addr, int port)',
+               rules=[Rule('addr.empty()', '(vstr_size(addr) == 0)', count=1),
+                      Rule(r'\breturn addr \+ (%s) \+ to_string\(([^;()]+)\);' % LIT,
+                           r'{ c11_assign_vstr(ret, addr); c11_append_cstr(ret, \1); c11_append_int(ret, \2); return; }', count=1, regex=True),
+                      Rule(r'\breturn to_string\(([^;()]+)\);', r'{ ret->size = 0; c11_append_int(ret, \1); return; }', count=1, regex=True),
+                      Rule(r'\breturn (%s);' % LIT, r'{ c11_assign_cstr(ret, \1); return; }', count=1, regex=True),
+                      Rule(r'\breturn addr;', '{ c11_assign_vstr(ret, addr); return; }', count=1, regex=True)])
+    u.function(src, NET, r'pair<string, uint16_t> parse_netloc\(const string& netloc, int default_port\)',
+               new_header='void parse_netloc(vstr* ret_host, uint16_t* ret_port, const vstr* netloc, int default_port)',
+               rules=[Rule(r"\bnetloc\.find\(('(?:[^'\\]|\\.)')\)", r'c11_find_char(netloc, \1)', count=1, regex=True),
+                      Rule('string::npos', 'C11_NPOS', count=1),
+                      Rule(r'\breturn make_pair\(netloc, ([^;()]+)\);',
+                           r'{ c11_assign_vstr(ret_host, netloc); *ret_port = (uint16_t)(\1); return; }', count=1, regex=True),
+                      # pair<string,double> -> pair<string,uint16_t>: the double returned by stod is converted to uint16_t
+                      Rule(r'\breturn make_pair\(netloc\.substr\(([^,()]+), ([^,()]+)\), stod\(netloc\.substr\(([^()]+)\)\)\);',
+                           r'{ c11_substr(ret_host, netloc, \1, \2); if (verif_exc) return; *ret_port = (uint16_t)c11_stod_tail(netloc, \3); return; }',
+                           count=1, regex=True)])
+    u.write()
+    return [u]
+
+
+def netloc_groups(ctx):
+    H = 'harness/C11/netloc.c'
+    RP = Replay(driver='C11/encoding.cc', mode='netloc', sources=ALL_LIB)
+    B = 'host length 1..3 (symbolic colon-free octets), every port 1..65535 / port 0; loops of the string models unwound (--unwind 12)'
+    fl = ['--unwind', '12', '--unwinding-assertions']
+    return [Group(name='Network.netloc.roundtrip[bounded]', harness=H, entry='b_netloc_roundtrip', function='parse_netloc(render_netloc(host, port))',
+                  kind='bounded', bound=B, cbmc_flags=fl, min_post=3, timeout=300, stage1=30, replay=RP,
+                  clause_note='parse_netloc(render_netloc(h, p), d) == (h, p) for non-empty colon-free h and 1 <= p <= 65535'),
+            Group(name='Network.netloc.no-port[bounded]', harness=H, entry='b_netloc_noport', function='parse_netloc(render_netloc(host, 0), d)',
+                  kind='bounded', bound=B, cbmc_flags=fl, min_post=2, timeout=300, stage1=30,
+                  clause_note='port 0 is rendered as the bare host and parsed back as (h, default_port)')]
 
 
 def plan(ctx):
@@ -329,13 +380,71 @@ def plan(ctx):
     eunits = escape_units(ctx, src)
     ctx.functions_under_contract += [f for u in eunits for f in u.functions]
     groups += escape_groups(ctx)
+    nunits = netloc_units(ctx, src)
+    ctx.functions_under_contract += [f for u in nunits for f in u.functions]
+    groups += netloc_groups(ctx)
     return groups
 
 
-EXPLANATION = ''
-TRUSTED = []
-ASSUMPTIONS = []
-DROPS = ''
-NOT_DECIDED = []
+EXPLANATION = (
+    'base64_encode, base64_decode and rot13 are proved against function contracts under loop contracts (goto-instrument --dfcc '
+    '--apply-loop-contracts), for every input length up to 2^45 and for the three alphabet arguments (nullptr, DEFAULT_ALPHABET, '
+    'URLSAFE_ALPHABET) at once. Universals use the ghost-index idiom: one symbolic group/block index g_blk whose octets are handed '
+    'to the contract as ghost scalars; the RFC 4648 tables and the strictness predicate (spec/C11_base64.h) are evaluated over those '
+    'scalars. base64_decode: "no exception <=> size % 4 == 0 and every block acceptable" is split into (=>) at the ghost block and '
+    '(<=) through the witness offset g_wit of the block examined when the exception was raised; only invalid_argument can be raised; '
+    'decoded octets and result length equal RFC 4648. The 64-iteration table-building loop is unrolled completely by the extractor '
+    '(with an unwinding assertion), so the inverse table is a concrete value for the proof of the main loop. Each loop body / tail '
+    'branch is additionally cut out as a function of its own and proved against a loop-free step contract. decode(encode(x)) == x is '
+    'a lemma over the two contracts (for every group k: the decoder never rejects block k of an encoder output, the length is |x| '
+    'and octets 3k..3k+2 are those of x). rot13: loop contract + involution both on the specification macro and over the contract. '
+    'Escapers: the loop body (one input octet) is proved against a step contract -- permitted octets only; for escape_controls / '
+    'escape_url the reference unescaper reads exactly the emitted code and returns the input octet; the whole function is proved with '
+    'the body bound to that contract under a loop contract that locates the code of input octet g_k and shows that the codes tile the '
+    'output in input order (so the left-to-right reference unescaper returns the input: induction over the input position, each step '
+    'being one discharged obligation). render_netloc/parse_netloc: bounded check only.')
+TRUSTED = [
+    'spec/C11_base64.h (RFC 4648 tables, grouping, padding and strictness predicate), spec/C11_rot13.h, spec/C11_escape.h (permitted sets, reference unescapers)',
+    'stubs/vstr.h (std::string model: data/size/capacity; push_back)',
+    'stubs/C11_str.h: string_printf for the two formats "\\x%02X" / "%%%02hhX" (ISO C fprintf semantics), operator+=(const char*) for literals of <= 2 characters, isalnum in the "C" locale',
+    'stubs/C11_net.h (bounded netloc check only): to_string(int), string::find(char), substr, copy/concatenation, stod restricted to plain decimal numerals',
+    'props/C11.py Unroll / LoopGhost: complete textual unrolling of the table loop (with unwinding assertion), ghost statements that assign only g_* variables',
+]
+ASSUMPTIONS = [
+    'input lengths are at most 2^45-1 octets (base64, rot13) / 2^44-1 (escapers): results stay below the cbmc object size limit',
+    'the result std::string can be allocated (capacity model): the out-parameter is empty with capacity >= 2*size+4 (encode), size (decode, rot13), 4*size+4 (escapers)',
+    'DEFAULT_ALPHABET / URLSAFE_ALPHABET are declared as mutable `const char*` globals in the source; they are modelled as constant arrays holding the initialiser text (nobody reassigns them)',
+    'char is signed 8-bit (x86-64 ABI); isalnum follows the "C" locale and glibc semantics for negative char values (ISO C leaves isalnum of a negative value other than EOF undefined: escape_url passes a plain char)',
+    'alphabet argument is one of nullptr / DEFAULT_ALPHABET / URLSAFE_ALPHABET (the property says "both alphabets"); caller-supplied tables are not covered',
+]
+DROPS = ('std::string result -> vstr out-parameter `ret`; `string ret;` / `return ret;` dropped; ret.push_back / ret += ch -> vstr_push_back; '
+         'ret += "lit" -> c11_append_lit; ret += string_printf(fmt, a) -> c11_append_printf1; s[x] -> s->data[x]; s.size() -> vstr_size(s); '
+         'range-for over the string (escape_url) lowered to an index loop; string(0x100, -1) lookup table -> char[0x100] filled with -1; '
+         'the table-building for loop unrolled textually; throw -> verif_exc flag; loop bodies additionally emitted as functions whose '
+         'parameters are the locals they use; const string& parameters -> const vstr*; pair<string,uint16_t> result -> two out-parameters (netloc)')
+NOT_DECIDED = [
+    'render_netloc/parse_netloc round trip: decided only as a BOUNDED check (host length 1..3, every port 0..65535) over trusted models of '
+    'std::to_string / std::string::find / substr / std::stod -- the two functions consist of nothing but such calls; longer hosts, hosts containing NUL '
+    'handling inside libstdc++, and stod on non-numeral text are not covered',
+    'base64 with a caller-supplied alphabet table (any pointer other than the two library alphabets)',
+    'non-canonical padding bits: "QR==" (trailing bits of the last sextet non-zero) is accepted by base64_decode; the statement lists length, alphabet and padding position as the rejection conditions, so this is not counted as a violation',
+    'escape_quotes is not required (by the statement) to be invertible and is not: it leaves a backslash unescaped, so "\\" followed by a quote is emitted as \\" ; '
+    '"no raw quote" is decided in the sense "every double quote in the output is immediately preceded by a backslash"',
+    'behaviour of isalnum under a non-"C" locale, std::bad_alloc, and strings longer than the stated length bounds',
+]
 CLAIMED = True
-MANIFEST = dict(category='proof', text='', note='', technique='')
+MANIFEST = dict(
+    category='proof',
+    text=('base64_encode / base64_decode / rot13 and the three escapers are put under function + loop contracts and discharged by cbmc for all input '
+          'lengths (up to 2^45) and all three alphabet arguments: encoded text equals RFC 4648 (tables written from the RFC as arithmetic macros) group by group '
+          '(ghost group index), decode raises invalid_argument iff the length is not a multiple of four or some block is not acceptable (alphabet characters, '
+          'padding only as xx== / xxx= in the last block) and otherwise returns the RFC octets; decode(encode(x)) == x is a lemma over the two contracts; '
+          'rot13 equals the textbook definition and is an involution; every escaper step emits only permitted octets and (controls, url) a code that the '
+          'reference unescaper maps back to the input octet, the loops concatenate exactly those codes in order. render_netloc/parse_netloc: bounded check '
+          '(hosts of 1..3 octets, every port) over models of to_string/find/substr/stod.'),
+    note=('Trusted: cbmc/goto-instrument, the answering SAT/SMT solver, the extractor (text cut from /repo/src on every run, must-fire rules; loop bodies are '
+          'also emitted as step functions), the spec macros in spec/C11_*.h, the std::string / string_printf / isalnum / to_string / stod models in stubs/. '
+          'The genuine defect found (an "xxx=" block with an invalid third character was accepted) is repaired by fixes/C11-1.patch. Bounded groups ([bounded]) '
+          'are reported separately and never counted as proved.'),
+    technique='function contracts + loop contracts (ghost index, ghost witness, step contracts bound with --replace-call-with-contract) enforced with goto-instrument --dfcc, discharged by cbmc (SAT/SMT portfolio)',
+)
